@@ -149,7 +149,7 @@ func runLim(c LimCase, cs *kit.CaseStats) error {
 		}
 		return []string{fmt.Sprintf("peer:%d", peer), "subnet:" + subnetOf[peer]}
 	}
-	srv, err := p2px.StartSyncer(node, p2px.NodeConfig{Name: "srv", IP: "127.0.0.1", UID: p2px.DetUniqueID("lim-srv"), Gate: gate, KeysFor: keysFor, Opts: []syncer.Option{
+	srv, err := p2px.StartSyncer(node, p2px.NodeConfig{Name: "srv", IP: p2px.ListenIP(0), UID: p2px.DetUniqueID("lim-srv"), Gate: gate, KeysFor: keysFor, Opts: []syncer.Option{
 		syncer.WithSyncInterval(time.Hour), syncer.WithPeerDiscoveryInterval(time.Hour),
 		syncer.WithMaxInflightRPCs(c.PerPeer), syncer.WithMaxInflightRPCsPerSubnet(c.PerSubnet),
 		syncer.WithInflightRPCSubnetPrefixes(c.Prefix, 48), syncer.WithMaxInboundPeers(16),
